@@ -7,7 +7,9 @@ Model of the disruption orchestration protocol (C08), as the code is:
                                                 `Controller.Reconcile`
 * `pkg/controllers/disruption/types.go`      — `NewCandidate`'s "already being disrupted / marked for deletion" filter
 * `pkg/controllers/state/statenode.go`       — `RequireNoScheduleTaint`, `ClearNodeClaimsCondition` (incl. their retry loops)
-* `pkg/controllers/state/cluster.go`         — `MarkForDeletion` / `UnmarkForDeletion`, `NodeClaimExists`, `Synced`
+* `pkg/controllers/state/cluster.go`         — `MarkForDeletion` / `UnmarkForDeletion` (every listed provider id that the
+                                                state still knows; unknown ids are skipped), `NodeClaimExists`, `Synced`,
+                                                `DeleteNode` / `DeleteNodeClaim` (a candidate that goes away on its own)
 * `pkg/controllers/provisioning/provisioner.go` — `CreateNodeClaims` / `Create` (NodePool lookup, API create, state update)
 
 Every API call is a *call site key* with an occurrence counter; the fault plan (part of the world) says which
@@ -70,6 +72,8 @@ structure Cand where
   deleting : Bool := false         -- API: NodeClaim has a deletionTimestamp
   mark : Bool := false             -- cluster state: StateNode.markedForDeletion
   owner : Option Nat := none       -- Queue.ProviderIDToCommand[providerID]
+  gone : Bool := false             -- Node and NodeClaim no longer exist in the API and the cluster state has forgotten
+                                   -- the StateNode (somebody else removed the node / its termination finished)
 deriving DecidableEq, Repr
 
 structure Repl where
@@ -154,7 +158,8 @@ def setRepl (w : World) (k i : Nat) (f : Repl → Repl) : World :=
 def taintAttempt (add : Bool) (i : Nat) (w : World) : Outcome × World :=
   match call w (.getNode i) with
   | (.ok, w1) =>
-    if (candAt w1 i).taint = add then (.ok, w1)      -- nothing to change: no patch is sent
+    if (candAt w1 i).gone then (.notFound, w1)       -- the API has no such Node
+    else if (candAt w1 i).taint = add then (.ok, w1) -- nothing to change: no patch is sent
     else
       match call w1 (.patchNode i) with
       | (.ok, w2) => (.ok, setCand w2 i (fun c => { c with taint := add }))
@@ -173,6 +178,7 @@ def taintNode (add : Bool) (i : Nat) (w : World) : Bool × World :=
 def condSetAttempt (i : Nat) (w : World) : Outcome × World :=
   match call w (.getNC i) with
   | (.ok, w1) =>
+    if (candAt w1 i).gone then (.notFound, w1) else  -- the API has no such NodeClaim
     match call w1 (.statusNC i) with
     | (.ok, w2) => (.ok, setCand w2 i (fun c => { c with cond := true }))
     | r => r
@@ -187,7 +193,8 @@ def condSet (i : Nat) (w : World) : Bool × World :=
 def condClearAttempt (i : Nat) (w : World) : Outcome × World :=
   match call w (.getNC i) with
   | (.ok, w1) =>
-    if (candAt w1 i).cond = false then (.ok, w1)
+    if (candAt w1 i).gone then (.notFound, w1)       -- the API has no such NodeClaim
+    else if (candAt w1 i).cond = false then (.ok, w1)
     else
       match call w1 (.statusNC i) with
       | (.ok, w2) => (.ok, setCand w2 i (fun c => { c with cond := false }))
@@ -253,6 +260,8 @@ def markObs (c : Cand) : Bool := c.mark || c.deleting
 def startCommand (k : Nat) (via : Bool) (w : World) : Res × World :=
   let c := cmdAt w k
   if k ≥ w.cmds.length || c.started then (.skip, w)
+  -- a node the cluster state does not know is nobody's candidate (`GetCandidates` ranges over the state nodes)
+  else if c.cands.any (fun i => (candAt w i).gone) then (.notcand, w)
   -- `NewCandidate`: already being disrupted, or deleting / marked for deletion
   else if via && c.cands.any (fun i => owned w i || markObs (candAt w i)) then (.notcand, w)
   else
@@ -321,7 +330,10 @@ def delTry (ci : Nat) (snap : List RApi) : Nat → World → Bool × List DelEve
   | 0, w => (true, [], w)
   | n + 1, w =>
     match call w (.delNC ci) with
-    | (.ok, w1) => (false, [{ cand := ci, repls := snap, ok := true }], setCand w1 ci (fun c => { c with deleting := true }))
+    | (.ok, w1) =>
+      -- the call reaches the API; for a NodeClaim that no longer exists it answers NotFound, which ends the loop without error
+      if (candAt w1 ci).gone then (false, [{ cand := ci, repls := snap, ok := true }], w1)
+      else (false, [{ cand := ci, repls := snap, ok := true }], setCand w1 ci (fun c => { c with deleting := true }))
     | (.notFound, w1) => (false, [{ cand := ci, repls := snap, ok := false }], w1)
     | (.err, w1) =>
       if n = 0 then (true, [{ cand := ci, repls := snap, ok := false }], w1)
@@ -345,7 +357,9 @@ def clearAll : List Nat → World → World
   | [], w => w
   | i :: is, w => clearAll is (condClear i w).2
 
-/-- the failure branch of `Reconcile` + `CompleteCommand` -/
+/-- the failure branch of `Reconcile` + `CompleteCommand`: `UnmarkForDeletion` and the queue-map removal range over ALL
+    candidates of the command; a candidate that is gone (unknown to the cluster state) is skipped, the others are
+    unmarked all the same -/
 def failCommand (K : Nat) (w : World) : World :=
   let live := (cmdAt w K).live
   let w1 := clearAll live (untaintAll live w)
@@ -398,11 +412,12 @@ def reconcile (k on : Nat) (w : World) : Res × List DelEvent × World :=
 def synced (w : World) : Bool :=
   w.cmds.all (fun c => c.repls.all (fun r => !r.known || r.cpid))
 
-/-- candidates neither in the queue nor marked for deletion (in candidate order) -/
+/-- candidates neither in the queue nor marked for deletion (in candidate order); the pass ranges over the nodes of the
+    cluster state, so a candidate that is gone is not visited -/
 def outdatedFrom (cs : List Cand) (i : Nat) : List Nat :=
   match cs with
   | [] => []
-  | c :: t => if c.owner.isSome || markObs c then outdatedFrom t (i + 1) else i :: outdatedFrom t (i + 1)
+  | c :: t => if c.owner.isSome || markObs c || c.gone then outdatedFrom t (i + 1) else i :: outdatedFrom t (i + 1)
 
 def untaintAllE : List Nat → World → Bool × World
   | [], w => (false, w)
@@ -447,6 +462,15 @@ def envStep (op : EnvOp) (k i : Nat) (w : World) : Res × World :=
   | none => (.noop, w)
   | some r => if r.api = .absent then (.noop, w) else (.ok, setRepl w k i (envRepl op))
 
+/-- a candidate goes away on its own while actions may be in flight: its Node and NodeClaim are removed from the API
+    (finalizers done) and the informers make the cluster state forget the StateNode (`DeleteNodeClaim` + `DeleteNode`).
+    Nothing of it is left to carry a taint, a condition or a deletion mark; the queue map is NOT told. -/
+def vanishCand : Cand → Cand :=
+  fun c => { c with gone := true, taint := false, cond := false, deleting := false, mark := false }
+
+def candGone (i : Nat) (w : World) : Res × World :=
+  if i < w.cands.length && !(candAt w i).gone then (.ok, setCand w i vanishCand) else (.noop, w)
+
 def syncRepl (r : Repl) : Repl :=
   if r.created then { r with known := r.api != .absent, cpid := r.api = .launched || r.api = .init } else r
 
@@ -464,6 +488,7 @@ inductive Step
   | reconcile (k on : Nat)
   | advance (ns : Int)
   | env (op : EnvOp) (k i : Nat)
+  | candGone (i : Nat)
   | sync
   | restart
   | cleanup
@@ -476,6 +501,7 @@ def step (w0 : World) (s : Step) : Res × List DelEvent × World :=
   | .reconcile k on => reconcile k on w
   | .advance ns => (.ok, [], if ns > 0 then { w with now := w.now + ns } else w)
   | .env op k i => let (r, w') := envStep op k i w; (r, [], w')
+  | .candGone i => let (r, w') := candGone i w; (r, [], w')
   | .sync => (.ok, [], syncAll w)
   | .restart => (.ok, [], restart w)
   | .cleanup => let (r, w') := cleanup w; (r, [], w')
